@@ -11,6 +11,7 @@ import LccModel.ProtoReport
 import LccModel.Model.Writer
 import LccModel.Model.Grammar
 import LccModel.Model.Replay
+import LccModel.Lemmas.Writer
 open Lean LccModel LccModel.Proto LccModel.ProtoReport LccModel.Report LccModel.Writer LccModel.Replay
 
 def runIdx (w : WriterState) (es : List Event) (i : Nat) : Except (WriterErr × Nat) WriterState :=
@@ -42,8 +43,9 @@ def handle (j : Json) : Except String Json := do
     let es ← decList decEvent (← field j "events")
     let nb ← getNat j "nb_threads"
     let r0 := { Report.empty with nbThreads := nb }
+    let disciplined := (runDisciplined (initState r0) es).isSome
     match foldJson r0 es with
-    | .obj kvs => pure (Json.obj (kvs.insert "grammar" (grammarJson es)))
+    | .obj kvs => pure (Json.obj ((kvs.insert "grammar" (grammarJson es)).insert "disciplined" (Json.bool disciplined)))
     | x => pure x
   | "replay" =>
     let r ← decReport (← field j "report")
